@@ -1,0 +1,10 @@
+//go:build verif
+
+package utils
+
+// Machine-checked contracts (comment-only; build tag verif). Checked by /verif/bin/hv.
+
+// Address attribution: X-Forwarded-For (first element), then X-Real-IP, then the peer address.
+//@ func GetClientIP
+//@   props C09
+//@   requires r != nil && r.Header != nil
